@@ -604,6 +604,6 @@ def check(ctx):
         "evaluations": ev, "distinct_nontrivial": nontriv,
         "rule": "surface grammars (every construct of docs/peg-file-syntax.md and peg.peg: literals in both quote styles, classes incl. negated / case-insensitive / ranges, every escape spelling, prefix and suffix operators, captures, actions, predicates, groups, empty alternatives, imports in single / aliased / grouped forms, # and // comments, both arrows, arbitrary white space) are printed with random spelling choices, parsed by the real front end, and the raw rule tree (walked through exported accessors) is compared with the tree Model/Front.v's builder machine computes for the surface expression; %d malformed-by-construction texts, truncations of valid texts and header-less texts must be rejected without panic" % len(MALFORMED),
         "problems": len(problems), "malformed": len(MALFORMED) + len(trunc) + 2,
-        "reader_stream": dict(rd_cov, rule="concrete syntax trees with random layout and spellings (ocaml/rddriver.ml, seeded) are printed by the extracted Reader/File.v fshow; those with file_okb = true are parsed by the real front end and its raw tree is compared, node for node, with the extracted file_nodes (what C10_reader_file says is built)"),
+        "reader_stream": dict(rd_cov, rule="concrete syntax trees with random layout and spellings (ocaml/rddriver.ml, seeded) are printed by the extracted Reader/File.v fshow; those with file_okb = true are parsed by the real front end and its raw tree is compared, node for node, with the extracted file_nodes (what C10_reader_file says is built); of each such file three malformed variants in the shape of the rejection theorems (the file followed by a character that starts nothing; its head with no rule behind it; its comments followed by something that is not the package clause) are given to the real front end, which must refuse each"),
         "samples": [{"text": list(expect.values())[1]["text"][-300:]}],
     })
